@@ -325,6 +325,9 @@ pub enum Cmp {
     Le,
     Ge,
     Eq,
+    /// strict comparisons: only generated where the check states how it reads them (C07)
+    Lt,
+    Gt,
 }
 
 impl Cmp {
@@ -333,6 +336,8 @@ impl Cmp {
             Cmp::Le => rooc::Comparison::LessOrEqual,
             Cmp::Ge => rooc::Comparison::GreaterOrEqual,
             Cmp::Eq => rooc::Comparison::Equal,
+            Cmp::Lt => rooc::Comparison::Less,
+            Cmp::Gt => rooc::Comparison::Greater,
         }
     }
     pub fn text(self) -> &'static str {
@@ -340,6 +345,8 @@ impl Cmp {
             Cmp::Le => "<=",
             Cmp::Ge => ">=",
             Cmp::Eq => "=",
+            Cmp::Lt => "<",
+            Cmp::Gt => ">",
         }
     }
     pub fn holds(self, l: &Big, r: &Big) -> bool {
@@ -347,20 +354,22 @@ impl Cmp {
             Cmp::Le => l <= r,
             Cmp::Ge => l >= r,
             Cmp::Eq => l == r,
+            Cmp::Lt => l < r,
+            Cmp::Gt => l > r,
         }
     }
     /// by how much the comparison is violated (0 when it holds)
     pub fn violation(self, l: &Big, r: &Big) -> Big {
         let d = l - r;
         match self {
-            Cmp::Le => {
+            Cmp::Le | Cmp::Lt => {
                 if d.is_positive() {
                     d
                 } else {
                     Big::zero()
                 }
             }
-            Cmp::Ge => {
+            Cmp::Ge | Cmp::Gt => {
                 if d.is_negative() {
                     -d
                 } else {
